@@ -22,6 +22,14 @@ PICK = {
 }
 def jobs(tier):
     J = []
+    J.append(Job(name="connection.teardown", group="C10.accounting", harness="harness/C09_pending.c", defines={"P": 0, "OP": 11}, real=["dbus/dbus-list.c"],
+                 env=["assert_stubs.c", "mem.c", "pool_lock.c", "msg_model.c", "msg_build.c"], checks="assert", unwind=7, unwindset=["strcmp.0:48"], timeout=300,
+                 encodes=["bus_connection_disconnected", "bus_connection_remove_transactions", "adjust_connections_for_uid", "bus_connection_drop_pending_replies"],
+                 stubs=["libdbus connection setters = no-ops", "accept-watch re-evaluation = ghost counter", "per-user table = ghost counter"],
+                 bounds="one connection without names, rules or monitor role, incomplete or completed; all counters symbolic up to 1000", shape="connection teardown"))
+    J.append(Job(name="driver.table_walks", group="C10.driver", harness="harness/C13_addmatch.c", defines={"OP": 2}, real=["dbus/dbus-string.c"], env=["assert_stubs.c", "mem.c", "msg_model.c"],
+                 checks="std", unwind=40, unwindset=["strcmp.0:48"], timeout=300, extra=["--object-bits", "11"], encodes=["interface_handler_find_property", "interface_handlers[] / message_handlers / property_handlers tables"],
+                 bounds="every exported interface x every property name of 3 arbitrary bytes; CBMC pointer checks on", shape="driver table walks"))
     TC = ["40 s / 10 s vs 30 s", "40 s / 35 s vs 30 s", "5 s / 2 s vs 30 s", "30.000 s / 29.999 s vs 30 s", "30.001 s / 30.000 s vs 30 s", "1 ms / 0 ms vs 1 ms"]
     for k, t in enumerate(TC):
         J.append(Job(name=f"expire_incomplete.T{k}", group="C10.expire", harness="harness/C09_pending.c", defines={"P": 0, "OP": 8, "TCASE": k}, real=["dbus/dbus-list.c"],
